@@ -4,7 +4,7 @@ C09 — refinement of `step` and of histories (assembly).
 import PsdVerif.Lemmas.TreeRefine2
 import PsdVerif.Lemmas.TreeHistory
 
-namespace PsdVerif.Tree
+namespace PsdVerif.TreeSt
 open Spec
 
 /-- an accepted operation is the plain-list operation -/
@@ -150,4 +150,4 @@ theorem run_refines (s : State) (ops : List Op) (i : Inv s) (hg : Guarded .curre
       simp only [Spec.runLists, hv]
       exact ih'
 
-end PsdVerif.Tree
+end PsdVerif.TreeSt
